@@ -284,7 +284,7 @@ def enumerate_cases(tier):
         out.append(_case(full, corrupt=[cor("fl_spe", a)]))
         out.append(_case(_template(fl=(3,)), corrupt=[cor("fl_spe", a)]))
     for a in range(8):
-        for b in (range(5) if a <= 2 else (0,)):
+        for b in (range(5) if a <= 2 or a >= 6 else (0,)):
             out.append(_case(full if (a + b) % 2 else mini,
                              corrupt=[cor("ext", a, b, a + b)]))
     for a in range(4):
@@ -1091,8 +1091,13 @@ def _apply_corruption(h5, c, d, touched, info):
             return {"cls": "ext/external-storage", "kf": None,
                     "need": [("format HDF5", ["external link"])]}
         # dangling link (target file does not exist)
+        touched.discard(f"ds:{name}")
+        name = {"events": name, "logs": "logs/ext-log", "tables": "tables/ext-tab",
+                "top": "ext-group"}[where]
+        if name in h5 or not claim(f"ds:{name}"):
+            return None
         h5[name] = h5py.ExternalLink(str(d / "does-not-exist.h5"), "/d")
-        return {"cls": "ext/dangling", "kf": "dangling-link",
+        return {"cls": f"ext/dangling/{where}", "kf": f"dangling-link/{where}",
                 "need": [("format HDF5", ["external link"])]}
 
     if kind == "nonpos":
@@ -1122,12 +1127,13 @@ def _judge(rec, path, exps, dclab_made):
     if exc is not None:
         where = _where(exc)
         cls = "+".join(classes) or "valid-file"
-        if "dangling-link" in tags and isinstance(exc, KeyError):
-            cls = "dangling-link"
+        dl = [t for t in tags if t.startswith("dangling-link/")]
+        if dl and isinstance(exc, KeyError):
+            cls = dl[0]
         for t in tags:
             if KF_SITE.get(t) == where:
                 cls = t
-        site = "" if cls == "dangling-link" else f"{where}/"
+        site = "" if cls.startswith("dangling-link/") else f"{where}/"
         rec.fail(f"raises/{type(exc).__name__}/{site}{cls}",
                  f"check_dataset raised {exc!r} (in {_where(exc)}) instead of "
                  f"reporting; applied: {[e['cls'] for e in exps]}")
